@@ -67,6 +67,7 @@ Section Rename.
       destruct (Nat.eqb_spec oc op) as [->|Hne]; cbn [orb]; [stay|].
       destruct (is_prefix (pi_path (sr_pi ro) ++ [SLASH]) (pi_path (sr_pi rn))) eqn:Epre; [stay|].
       destruct (is_not_exist (sr_err rn)) eqn:Ene; cbn [negb]; [|stay].
+      match goal with |- context [if ?b then (s, RFail EPermDenied) else _] => destruct b; [stay|] end.
       destruct Holk as [->|Holk]; [congruence|].
       destruct (search_post_not_exist _ _ HPn Ene) as (np' & Hn1 & _ & Hnc & Hnlk).
       assert (np' = np) by congruence. subst np'.
